@@ -176,6 +176,12 @@ impl LeakyBucketRateLimiter {
         );
         self.balance = self.balance.saturating_add(tokens).min(self.max);
     }
+
+    /// verif: the next refill deadline (private field), for the model correspondence.
+    #[cfg(feature = "verif")]
+    pub fn verif_deadline(&self) -> Option<Instant> {
+        self.deadline
+    }
 }
 
 impl RateLimiter for LeakyBucketRateLimiter {
